@@ -320,10 +320,10 @@ func init() {
 		Rule:  "real Stream() against the simulated master: every stop cause {cancel, EOF, ERR, close, RST, short packet, out-of-sequence packet, handler error, mapper error/mismatch, unsupported / invalid event, connection refused / handshake error / checksum-query error / reset after the checksum query / dump request that cannot be written (max_allowed_packet)} x stop point (every packet index sampled) x reader state at the stop (waiting for the network: master silent; holding an event: handler slow or blocked with the master ahead) x handler {fast, slow, blocked-at-stop}; long backlogs (100-180 packets pending when the parser stops). Observed: Stream returns within the deadline, then within the deadline the master sees the socket closed, no library-started goroutine remains (runtime.Stack), Error() and a second Error() return, the handler is never entered twice at once nor after Stream returned. Non-trivial: every scenario",
 		Extra: extraC05})
 	register(&Property{ID: "C06",
-		Rule:  "real Stream() against the simulated master: stop causes as in C04 x stop points x pacing; ERR codes/messages arbitrary (incl. '#'-prefixed SQL state); decode failures at event level (unsupported / truncated-body events, a truncated TABLE_MAP for an id already announced) and at value level (ENUM of an unexpected pack size in the before / after / both images); observed (Stream result, Error() result): handler/decode/lookup failures give a non-nil Stream error; with a nil Stream result Error() may be nil only for cancel / EOF, must carry the master's message for ERR and a transport error for close / RST / short / out-of-sequence; late cancel after an ERR must not hide it. Non-trivial: every scenario",
-		Extra: extraC06})
+		Rule:  "real Stream() against the simulated master: stop causes as in C04 x stop points x pacing; ERR codes/messages arbitrary (incl. '#'-prefixed SQL state); decode failures at event level (unsupported / truncated-body events, a truncated TABLE_MAP for an id already announced) and at value level (ENUM of an unexpected pack size in the before / after / both images); observed (Stream result, Error() result): handler/decode/lookup failures give a non-nil Stream error; with a nil Stream result Error() may be nil only for cancel / EOF, must carry the master's message for ERR and a transport error for close / RST / short / out-of-sequence; late cancel after an ERR must not hide it; plus the reader goroutine over a scripted connection for an ERR packet of every error number 1000..2100 and boundary numbers (all 65536 in thorough): the published reason carries the message and is neither the EOF marker nor a cancellation. Non-trivial: every scenario",
+		Extra: func(c *Collector, r *RNG, tier string) { extraC06(c, r, tier); errSweep(c, r, tier) }})
 	register(&Property{ID: "C07",
-		Rule:  "real Stream() attempts with server ids {1, 2^31-1, 2^31, 2^32-1, random}, file names of 0..255 bytes incl. empty, path-like, dotted, blank, NUL, quoted, non-UTF-8 and random-byte names, offsets {4, 2^32-1, 2^31, random}, sequences of up to 4 attempts on one streamer, some refused before the dump, some ending only after the format description was received, the position moved by the caller between attempts; the master decodes the COM_QUERY and COM_BINLOG_DUMP it received. Non-trivial: every scenario",
+		Rule:  "real Stream() attempts with server ids {1, 2^31-1, 2^31, 2^32-1, random}, file names of 0..255 bytes incl. empty, path-like, dotted, blank, NUL, quoted, non-UTF-8 and random-byte names, offsets {4, 2^32-1, 2^31, random}, sequences of up to 4 attempts on one streamer, some refused before the dump, some ending only after the format description was received, the position moved by the caller between attempts; attempts that deliver some transactions and then fail in the handler, followed by an attempt that must ask for the end label of the last accepted transaction; the master decodes the COM_QUERY and COM_BINLOG_DUMP it received. Non-trivial: every scenario",
 		Extra: extraC07})
 	register(&Property{ID: "C08",
 		Rule:  "real Stream() with handlers that (a) keep deep references and re-read every delivered transaction after the stream ended, (b) overwrite every delivered byte slice; histories with string/blob/bit/set values (sub-slices of the event buffer) and, for every formatted type, one value repeated in all rows (its zero or a non-zero one; all TIMESTAMP columns in the same second), the scribbling run first; packet sizes around the driver's buffer thresholds (4091..4097, 8187..8193, 262139..262145 byte payloads); master far ahead vs lock-step; plus readBinlogEvent over a scripted connection that reuses one buffer; multi-file histories (rotations, restarts) through parseEvents with every delivered transaction - positions included - rendered at delivery and again at the end. Non-trivial: every scenario",
@@ -739,6 +739,57 @@ func extraC07(col *Collector, r *RNG, tier string) {
 			}
 		}
 		col.AddScenario("handshake", fmt.Sprintf("id=%d file=%s off=%d attempts=%d", id, hx([]byte(name)), off, attempts), true, ok, true, note, key, strings.Join(seen, " ; "), "")
+	}
+	// "the stored resume position on later attempts": an attempt makes progress and then ends with an error of the
+	// parser's own (the handler refuses transaction k, the mapper fails) - the next attempt on the same Streamer must
+	// ask for the end label of the last accepted transaction (taken from the Spec's expected labels, not from the
+	// Streamer), with the same server id and flags
+	for i := 0; i < n/2; i++ {
+		h := smallHistory(r, allCfgs[i%len(allCfgs)])
+		line := h.line(posStr(firstFile, 4))
+		ans, err := theDriver.Ask(line)
+		if err != nil {
+			continue
+		}
+		txs := strings.Split(fields(ans)["spec"], "&")
+		if len(txs) < 2 {
+			continue
+		}
+		id := uint32(r.U64()) | 1
+		s, mp := newStreamer(m, h, id, firstFile, 4)
+		k := r.Intn(len(txs))
+		opts := defaultOpts()
+		opts.failAt = k
+		res1 := runAttempt(s, m, h, mp, opts)
+		wantFile, wantOff := firstFile, int64(4)
+		if k > 0 {
+			lbl := txs[k-1] // now=<file>:<off>,next=<file>:<off>,…
+			if a := strings.Index(lbl, ",next="); a >= 0 {
+				nx := lbl[a+6:]
+				if b := strings.IndexByte(nx, ','); b >= 0 {
+					nx = nx[:b]
+				}
+				if c := strings.LastIndexByte(nx, ':'); c >= 0 {
+					wantFile = string(unhx(nx[:c]))
+					fmt.Sscan(nx[c+1:], &wantOff)
+				}
+			}
+		}
+		res2 := runAttempt(s, m, h, mp, defaultOpts())
+		ok, note, key := true, "", ""
+		switch {
+		case !strings.HasPrefix(res1.streamRet, "err:"):
+			ok = true // the failing call was not reached (cannot happen for k < len): nothing to say here
+		case len(res2.dumps) != 1:
+			ok, key, note = false, "dump-count", fmt.Sprintf("the attempt after a handler failure sent %d dump requests", len(res2.dumps))
+		default:
+			d := res2.dumps[0]
+			if d.serverID != id || d.flags != 0 || d.file != wantFile || int64(d.pos) != wantOff {
+				ok, key = false, "dump-arguments-after-failure"
+				note = fmt.Sprintf("the handler refused transaction %d; the next attempt asked for id=%d flags=%d file=%q pos=%d, want id=%d flags=0 file=%q pos=%d (end label of the last accepted transaction)", k, d.serverID, d.flags, clip(d.file, 40), d.pos, id, wantFile, wantOff)
+			}
+		}
+		col.AddScenario("handshake-after-progress", fmt.Sprintf("handler refuses transaction %d, then a second attempt; %s", k, line), true, ok, true, note, key, fmt.Sprintf("attempt 1: %s; attempt 2 dumps=%d", clip(res1.streamRet, 60), len(res2.dumps)), "")
 	}
 }
 
